@@ -186,21 +186,21 @@ UNIT = Unit(
         Fn(**BAR_SET_TAB),
         Fn(**BAR_SET_STYLE),
         Decl("src/progress_bar.rs", "struct", "ProgressBar", rewrites=PB_DECL_RW),
-        Raw(K.INSTANT_NOW),
+        Raw(K.INSTANT_NOW), Raw(K.TIME_OK),
         Fn(**dict(K.BAR_DRAW, stub=True)),
         Fn(**dict(K.BAR_UPDATE_AND_DRAW, stub=True)),
         Fn(**dict(K.POS_SET, stub=True)),
         Fn("src/state.rs", "BarState", "finish_using_style",
-           requires=[("wf", "old(self).tabs_wf()")],
+           requires=[("wf", "old(self).tabs_wf()")] + K.BAR_REQ,
            ensures=[("C16-tabs-wf", "final(self).tabs_wf()"),
                     ("C16-finish-message", "match finish { ProgressFinish::WithMessage(m) => final(self).state.message.orig() == m@, ProgressFinish::AbandonWithMessage(m) => final(self).state.message.orig() == m@, _ => final(self).state.message == old(self).state.message }"),
                     ("frame", "final(self).state.prefix == old(self).state.prefix && final(self).tab_width == old(self).tab_width")]),
         Fn("src/progress_bar.rs", "ProgressBar", "set_message", sig_rewrites=PB_SIG, rewrites=PB_BODY,
-           requires=[("wf", "old(self).state.tabs_wf()")],
+           requires=[("wf", "old(self).state.tabs_wf()"), ("target-wf", "old(self).state.draw_target.wf2()")],
            ensures=[("C16-tabs-wf", "final(self).state.tabs_wf()"), ("C16-message", "final(self).state.state.message.orig() == msg@"),
                     ("frame", "final(self).state.state.prefix == old(self).state.state.prefix && final(self).state.tab_width == old(self).state.tab_width")]),
         Fn("src/progress_bar.rs", "ProgressBar", "set_prefix", sig_rewrites=PB_SIG, rewrites=PB_BODY,
-           requires=[("wf", "old(self).state.tabs_wf()")],
+           requires=[("wf", "old(self).state.tabs_wf()"), ("target-wf", "old(self).state.draw_target.wf2()")],
            ensures=[("C16-tabs-wf", "final(self).state.tabs_wf()"), ("C16-prefix", "final(self).state.state.prefix.orig() == prefix@"),
                     ("frame", "final(self).state.state.message == old(self).state.state.message && final(self).state.tab_width == old(self).state.tab_width")]),
         Fn("src/progress_bar.rs", "ProgressBar", "with_message", ret="r", sig_rewrites=PB_SIG_VAL, rewrites=PB_BODY + [DROP_GUARD],
